@@ -4,6 +4,7 @@ import (
 	"bytes"
 	"fmt"
 	"os"
+	"path/filepath"
 	"strings"
 	"time"
 
@@ -285,6 +286,28 @@ func genConcPlan(prop string, seed uint64, tier string) *Plan {
 	}
 	p.Clients = append(p.Clients, env) // last list = environment
 	p.Extra["env"] = 1
+	if len(p.Ops) > 0 && ((prop != "C04" && r.Bool(1, 4)) || (prop == "C04" && r.Bool(1, 6))) {
+		// the concurrent phase starts right after a clean restart: clients (and the GC request)
+		// arrive while Bucket.open's background goroutine is still loading - or, with the hint
+		// files removed, rebuilding from the data files - the hints of the lower chunks
+		p.Extra["restartBeforeConc"] = 1 + int64(r.Intn(3)) // 1: keep hints, 2: remove all hint files, 3: remove a drawn subset
+		p.Extra["restartSeed"] = int64(r.U64() >> 1)
+		envl := p.Clients[len(p.Clients)-1]
+		shift := 0
+		for i := range envl {
+			if envl[i].Kind == "gc" && r.Bool(2, 3) {
+				// the GC request arrives early, while the loader is at work
+				at := r.Pick(0, 3, 20, 80, 300)
+				shift = at - envl[i].At
+			}
+			if shift != 0 && (envl[i].Kind == "gc" || envl[i].Kind == "gc2" || envl[i].Kind == "cancelgc") {
+				envl[i].At += shift
+				if envl[i].At < 0 {
+					envl[i].At = 0
+				}
+			}
+		}
+	}
 	return p
 }
 
@@ -501,8 +524,7 @@ func runConc(plan *Plan, tape *simrt.Tape) *Outcome {
 	nClients := len(plan.Clients) - 1
 	env := plan.Clients[nClients]
 	finished := false
-	_, res := sim.Run(func(g *Gen) {
-		x.g = g
+	preload := func(g *Gen) {
 		w := g.W
 		// preload, sequentially
 		for _, op := range plan.Ops {
@@ -520,6 +542,9 @@ func runConc(plan *Plan, tape *simrt.Tape) *Outcome {
 			g.H.VerifFlush(true)
 			w.WaitIdle()
 		}
+	}
+	conc := func(g *Gen) {
+		w := g.W
 		if den := plan.Cfg.StallDen; den > 0 {
 			// stalled-thread fault: a client (or the GC pass) is descheduled for a drawn, long
 			// number of steps at a function entry of package store, e.g. between its index
@@ -651,7 +676,55 @@ func runConc(plan *Plan, tape *simrt.Tape) *Outcome {
 		}
 		g.H.Close()
 		finished = true
-	})
+	}
+	var res simrt.Result
+	if mode := plan.Extra["restartBeforeConc"]; mode > 0 && len(plan.Ops) > 0 {
+		closed := false
+		var g1 *Gen
+		g1, res = sim.Run(func(g *Gen) {
+			x.g = g
+			preload(g)
+			if x.viol == nil {
+				g.H.Close()
+				closed = true
+			}
+		})
+		_ = g1
+		if closed && res.Status == simrt.StatusDone && x.viol == nil {
+			// keep the tree dump (tombstones stay indexed, versions go on); without hint files the
+			// background loader of the next generation rebuilds them from the data files
+			files := listFiles(dir)
+			hasTree := map[string]bool{}
+			for _, name := range sortedKeys(files) {
+				if fileClass(name) == "tree" {
+					hasTree[filepath.Dir(name)] = true
+				}
+			}
+			rr := NewRng(uint64(plan.Extra["restartSeed"]))
+			for _, name := range sortedKeys(files) {
+				cl := fileClass(name)
+				if (cl == "hint" || cl == "merged") && hasTree[filepath.Dir(name)] && (mode == 2 || (mode == 3 && rr.Bool(1, 2))) {
+					os.Remove(filepath.Join(dir, name))
+					x.out.fault("index-file-deleted:" + cl)
+				}
+			}
+			x.out.probe("concurrent-phase-right-after-restart")
+			var g2 *Gen
+			g2, res = sim.Run(func(g *Gen) {
+				x.g = g
+				conc(g)
+			})
+			if g2.OpenErr != nil && x.viol == nil {
+				x.fail("R-open-failed", "", "NewHStore after clean shutdown: "+g2.OpenErr.Error())
+			}
+		}
+	} else {
+		_, res = sim.Run(func(g *Gen) {
+			x.g = g
+			preload(g)
+			conc(g)
+		})
+	}
 	switch res.Status {
 	case simrt.StatusDone:
 	case simrt.StatusStepCap:
@@ -774,6 +847,15 @@ func (x *concExec) runEnv(env []Op) {
 				if err == nil {
 					x.gcAccepted++
 					x.out.probe("gc-accepted")
+					for _, t := range w.LiveTasks() {
+						if strings.Contains(t, "func@store.open") {
+							name := t[strings.Index(t, ":")+1:]
+							if i := strings.Index(name, "["); i > 0 {
+								name = name[:i]
+							}
+							x.out.probe("gc-accepted-while-running:" + name)
+						}
+					}
 				} else {
 					x.gcTasks[idx] = 1 << 30
 					x.out.probe("gc-refused")
